@@ -8,10 +8,17 @@
    settled, every participation paid, out of both queues and with nothing left in custody, after a / batch + 1 end blocks -- whatever
    other transactions and blocks come in between.  Both rest on the work-conserving law of one end-blocker run and on the frame
    "no transaction touches the queued work of a resolved market" proved for every message handler.
-   PARTIAL: the independence of final balances from the batch sizes is decided per run: sampled histories are re-executed under
-   other batch sizes and their final balances compared. *)
+   Independence of the batch sizes and of the interleaving (C05_settlement_conserves, C05_settlement_determined; Proofs/Entitle.v):
+   ent x a = what account a is still to receive out of custody from the settlement of the resolved market x, computed from the market's
+   record alone.  Between any two points of any history a resolved market has made a sequence of settlement transitions (settle one bet,
+   mark the book resolved, pay a batch of participations of ANY size, withdrawals) whose payments, account by account, equal the
+   entitlement it lost; once the market is settled every account has received exactly its entitlement at the first point.  What is paid
+   is therefore a function of the market's record at resolution, not of the batch sizes or of what else happened in between.
+   The witness evaluates this on a concrete history under two pairs of batch sizes: same final balances, equal to balance + ent.
+   Outside the theorem (decided per run by the batch-size differential): what the subaccount hooks forward from a subaccount address to
+   its owner after such a payment, and the side condition that the compared runs accept the same transactions. *)
 From Coq Require Import ZArith Bool List String.
-From Sge Require Import Lib.Dec Model.Types Model.Mint Model.Chain Proofs.Inversion Proofs.Tables Gen.perms Proofs.SubHist Proofs.NoAbort Proofs.Custody Proofs.Progress Witness.C11w Witness.C05w.
+From Sge Require Import Lib.Dec Model.Types Model.Mint Model.Chain Proofs.Inversion Proofs.Tables Gen.perms Proofs.SubHist Proofs.NoAbort Proofs.Custody Proofs.Local Proofs.Progress Proofs.Entitle Witness.C11w Witness.C05w.
 Import ListNotations.
 
 (* the bet end-blocker runs before the order-book end-blocker (regenerated from app/modules.go) *)
@@ -117,4 +124,54 @@ Example C05_progress_witness :
   (let s := run c05w_init (firstn 27 c05w_ops) in
    c_bqueue s = [0] /\ parts_measure s 0 = 2 /\ pr_ob_batch (c_prm c05w_init) = 2 /\
    (parts_measure s 0 / pr_ob_batch (c_prm c05w_init) + 1 <=? count_end (skipn 27 c05w_ops)) = true).
+Proof. vm_compute. repeat split; reflexivity. Qed.
+
+(* ---- the final payments do not depend on the batch sizes or on the interleaving ----------------------------------------------------------- *)
+(* ent x a: Proofs/Entitle.v (unsettled bets: refund of stake and fee / winnings and stake / nothing, bet fee to the market creator on a
+   declared result; unpaid participations: liquidity + the contributions of ALL bets of the market, fee to the depositor or the creator);
+   recv a effs = what the payments in effs pay to a; sreach P x effs x' = a sequence of settlement transitions from x to x' paying effs *)
+Theorem C05_settlement_conserves : forall P bk supply vault MP t0 sw sd,
+  pr_bet_fee P <= pr_bet_min P -> 0 <= pr_bet_fee P ->
+  bget bk POOL = 0 -> bget bk HOUSEFEE = 0 -> bget bk BETFEE = 0 -> (forall a, SUBBASE <= a -> 0 <= bget bk a) ->
+  forall ops1 ops2 m x, Forall user_op ops1 -> Forall user_op ops2 ->
+  get_ms (run (init bk supply P vault MP t0 sw sd) ops1) m = Some x -> status_res (k_status (ms_mkt x)) ->
+  exists x' effs, get_ms (run (init bk supply P vault MP t0 sw sd) (ops1 ++ ops2)) m = Some x' /\ sreach P x effs x' /\
+    forall a, ent x a = ent x' a + recv a effs.
+Proof. exact settlement_conserves. Qed.
+Print Assumptions C05_settlement_conserves.
+
+Theorem C05_settlement_determined : forall P bk supply vault MP t0 sw sd,
+  pr_bet_fee P <= pr_bet_min P -> 0 <= pr_bet_fee P ->
+  bget bk POOL = 0 -> bget bk HOUSEFEE = 0 -> bget bk BETFEE = 0 -> (forall a, SUBBASE <= a -> 0 <= bget bk a) ->
+  forall ops1 ops2 m x, Forall user_op ops1 -> Forall user_op ops2 ->
+  get_ms (run (init bk supply P vault MP t0 sw sd) ops1) m = Some x -> status_res (k_status (ms_mkt x)) ->
+  book_at_least BK_SETTLED (run (init bk supply P vault MP t0 sw sd) (ops1 ++ ops2)) m ->
+  exists x' effs, get_ms (run (init bk supply P vault MP t0 sw sd) (ops1 ++ ops2)) m = Some x' /\ sreach P x effs x' /\
+    forall a, recv a effs = ent x a.
+Proof. exact settlement_determined. Qed.
+Print Assumptions C05_settlement_determined.
+
+(* every local transition a resolved market can make is one of the four settlement transitions, and each conserves entitlement + paid *)
+Theorem C05_transition_conserves : forall P x effs x', pr_bet_fee P <= pr_bet_min P -> 0 <= pr_bet_fee P ->
+  sgood x -> strans P x effs x' -> sgood x' /\ forall a, ent x a = ent x' a + recv a effs.
+Proof. intros P x effs x' HP HF. exact (strans_conserves P HP HF x effs x'). Qed.
+Print Assumptions C05_transition_conserves.
+
+(* non-vacuity and meaning: the witness history up to the point where market 0 waits for settlement (3 pending bets, 2 participations),
+   continued with empty blocks only, under batch sizes (1000, 2) and under batch sizes (1, 1): both chains drain completely, and in
+   both every account's balance has grown by exactly its entitlement ent x a computed at the first point *)
+Definition c05w_drain : list op := List.concat (List.repeat [OBegin 1800000000; OEnd] 8).
+Definition c05w_check (i0 : chain) : bool :=
+  let s := run i0 (firstn 25 c05w_ops) in
+  let s' := run s c05w_drain in
+  match get_ms s 0, get_ms s' 0 with
+  | Some x, Some y =>
+      forallb (fun a => bget (c_bank s') a - bget (c_bank s) a =? ent x a) [0; 1; 2; 3; 4; 5] &&
+      (0 <? ent x 2) && (0 <? ent x 3) && (bk_status (ms_book y) =? BK_SETTLED) && negb (c_halted s') &&
+      match c_mqueue s, c_mqueue s', c_bqueue s' with [0], [], [] => true | _, _, _ => false end
+  | _, _ => false
+  end.
+Example C05_batch_independence_witness :
+  c05w_check c05w_init = true /\ c05w_check c05w_init_b11 = true /\
+  pr_bet_batch (c_prm c05w_init_b11) = 1 /\ pr_ob_batch (c_prm c05w_init_b11) = 1 /\ pr_bet_batch (c_prm c05w_init) = 1000.
 Proof. vm_compute. repeat split; reflexivity. Qed.
